@@ -149,6 +149,9 @@ func replayNative(p *Program, file string) replayOutcome {
 		// lock-discipline violation: confirmed when the race detector sees a
 		// conflicting access in the harness's concurrent stress section
 		_, out, _ := runNativeOpt(p, pkg, []replayCase{rc}, 180*time.Second, true)
+		if strings.Contains(out, "fatal error: concurrent map") {
+			return replayOutcome{true, "the Go runtime stops the native stress run: concurrent map access"}
+		}
 		if strings.Contains(out, "DATA RACE") {
 			return replayOutcome{true, "the Go race detector reports a data race in the native stress run"}
 		}
